@@ -123,19 +123,35 @@ def meta_from_json(j):
     return Metadata(**j)
 
 
+def _iso(d):
+    return d.date().isoformat() if isinstance(d, datetime.datetime) else d.isoformat()
+
+
+def as_date_kind(d, kind):
+    """a date as the caller might hand it to the Cell constructor"""
+    if kind == "timestamp":
+        import pandas as pd
+
+        return pd.Timestamp(d)
+    if kind == "datetime":
+        return datetime.datetime(d.year, d.month, d.day, 13, 45)
+    return d
+
+
 def cell_to_json(c):
     prev = getattr(c, "prev_evaluation_date", None) if type(c).__name__ == "IncrementalCell" else None
-    return {"cls": type(c).__name__, "ps": c.period_start.isoformat(), "pe": c.period_end.isoformat(),
-            "ev": c.evaluation_date.isoformat(), "prev": prev.isoformat() if prev else None,
+    return {"cls": type(c).__name__, "ps": _iso(c.period_start), "pe": _iso(c.period_end),
+            "ev": _iso(c.evaluation_date), "prev": _iso(prev) if prev else None,
             "meta": meta_to_json(c.metadata), "values": [[k, val_to_json(v)] for k, v in c.values.items()]}
 
 
-def cell_from_json(j):
+def cell_from_json(j, date_kind="date"):
     import bermuda
 
     cls = getattr(bermuda, j["cls"])
-    kw = dict(period_start=D.fromisoformat(j["ps"]), period_end=D.fromisoformat(j["pe"]),
-              evaluation_date=D.fromisoformat(j["ev"]), metadata=meta_from_json(j["meta"]),
+    kw = dict(period_start=as_date_kind(D.fromisoformat(j["ps"]), date_kind),
+              period_end=as_date_kind(D.fromisoformat(j["pe"]), date_kind),
+              evaluation_date=as_date_kind(D.fromisoformat(j["ev"]), date_kind), metadata=meta_from_json(j["meta"]),
               values={k: val_from_json(v) for k, v in j["values"]})
     if j["cls"] == "IncrementalCell":
         kw["prev_evaluation_date"] = D.fromisoformat(j["prev"])
@@ -146,12 +162,12 @@ def tri_to_json(t):
     return [cell_to_json(c) for c in t.cells]
 
 
-def tri_from_json(j):
+def tri_from_json(j, date_kind="date"):
     from bermuda import Triangle
 
     with warnings.catch_warnings():
         warnings.simplefilter("ignore")
-        return Triangle([cell_from_json(c) for c in j])
+        return Triangle([cell_from_json(c, date_kind) for c in j])
 
 
 def w_to_json(w):
@@ -193,6 +209,14 @@ def chdr(c) -> str:
     prev = getattr(c, "prev_evaluation_date", None) if type(c).__name__ == "IncrementalCell" else None
     return (f"(mkCell {ckind(c)} {cdate(c.period_start)} {cdate(c.period_end)} {cdate(c.evaluation_date)} "
             f"{copt(prev, cdate)} {cmeta(c.metadata)} [])")
+
+
+def ccell_m(c, m) -> str:
+    from harness.coqterm import cdict, cvalue
+
+    prev = getattr(c, "prev_evaluation_date", None) if type(c).__name__ == "IncrementalCell" else None
+    return (f"(mkCell {ckind(c)} {cdate(c.period_start)} {cdate(c.period_end)} {cdate(c.evaluation_date)} "
+            f"{copt(prev, cdate)} {cmeta(m)} {cdict(c.values, cvalue)})")
 
 
 def cqval(v) -> str:
@@ -468,6 +492,22 @@ class CaseGen:
                     v = c.values[f]
                     L[j] = c.replace(values={**c.values, f: float(v) if isinstance(v, int) else int(v)})
             lists[t] = L
+        date_kinds = ["date"] * len(lists)
+        variant = "plain"
+        if kind != "err":
+            x = r.random()
+            if x < 0.22:
+                # EQUAL metadata written differently in the blended triangles: detail keys inserted in another order,
+                # 7 vs 7.0.  They are the same coordinates for blend (dict keys by Metadata.__eq__/__hash__).
+                variant = "meta-order"
+                lists = [[respell_meta(c, j) for c in L] for j, L in enumerate(lists)]
+            elif x < 0.44:
+                # some triangles built from pandas.Timestamp / datetime.datetime inputs (the Cell constructor stores dates)
+                variant = "date-kinds"
+                date_kinds = [r.choice(["date", "timestamp", "datetime"]) for _ in lists]
+                if all(k == "date" for k in date_kinds):
+                    date_kinds[r.randrange(len(lists))] = r.choice(["timestamp", "datetime"])
+                lists = [[rebuild_dates(c, k) for c in L] for L, k in zip(lists, date_kinds)]
         with warnings.catch_warnings():
             warnings.simplefilter("ignore")
             tris = [Triangle(L) for L in lists]
@@ -495,13 +535,46 @@ class CaseGen:
         if tag == "method":
             method = r.choice(["Linear", "MIXTURE", "average", "mix"])
         return dict(tris=tris, weights=weights, method=method, seed=seed, tag=tag, wtag=wtag,
-                    info=f"{info['layout']}/{info['basis']}/{info['n_slices']}sl/{info['values']}")
+                    info=f"{info['layout']}/{info['basis']}/{info['n_slices']}sl/{info['values']}",
+                    date_kinds=date_kinds, variant=variant)
 
 
 def _cell_cls():
     from bermuda import Cell
 
     return Cell
+
+
+def respell_meta(c, j):
+    """the same metadata with two extra details, spelled per triangle: key order and int/float differ"""
+    kw = meta_kwargs(c.metadata)
+    extra = [("region", "NY"), ("coverage", "auto"), ("tier", 7 if j % 2 == 0 else 7.0)]
+    if j % 2:
+        extra = extra[::-1]
+    kw["details"] = dict(extra + list(kw["details"].items())) if j % 2 else dict(list(kw["details"].items()) + extra)
+    lim = kw["per_occurrence_limit"]
+    if lim is not None and float(lim) == int(lim):
+        kw["per_occurrence_limit"] = int(lim) if j % 2 else float(lim)
+    return c.replace(metadata=c.metadata.__class__(**kw))
+
+
+def rebuild_dates(c, kind):
+    kw = dict(period_start=as_date_kind(c.period_start, kind), period_end=as_date_kind(c.period_end, kind),
+              evaluation_date=as_date_kind(c.evaluation_date, kind), metadata=c.metadata, values=c.values)
+    if type(c).__name__ == "IncrementalCell":
+        kw["prev_evaluation_date"] = c.prev_evaluation_date      # a plain date (see the note in run())
+    return type(c)(**kw)
+
+
+def meta_key(m):
+    """Python-equality class of a Metadata: details as a set of items, numbers by value"""
+    def nv(v):
+        if isinstance(v, bool) or v is None or isinstance(v, (str, datetime.date)):
+            return (type(v).__name__, v)
+        return ("num", Fraction(v))
+
+    return (m.risk_basis, m.country, m.currency, m.reinsurance_basis, m.loss_definition, nv(m.per_occurrence_limit),
+            frozenset((k, nv(v)) for k, v in m.details.items()), frozenset((k, nv(v)) for k, v in m.loss_details.items()))
 
 
 def meta_kwargs(m):
@@ -563,6 +636,12 @@ def direct_oracles(case, res, rec, tol):
     """Evaluate the property clauses directly on the implementation's result.  -> list of failure strings"""
     tris, weights, method, seed = case["tris"], case["weights"], case["method"], case["seed"]
     fails = []
+    for j, t in enumerate(tris):
+        for c in t.cells:
+            for nm in ("period_start", "period_end", "evaluation_date"):
+                if type(getattr(c, nm)) is not datetime.date:
+                    return [f"triangle {j}: Cell stored {nm} as {type(getattr(c, nm)).__name__}, not datetime.date "
+                            f"(constructed from {case.get('date_kinds', ['date'])[j]} inputs)"]
     if case["tag"] not in ("ok", "f14", "equal"):
         # refusal cases: mutated inputs must not produce a triangle, except where the mutation was void
         return fails
@@ -676,7 +755,14 @@ def case_to_coq(case, res, rec, tol):
                         for ks, o in fo_tbl.items()) + "]"
     dt = "[" + ";".join(f"(({i}%nat,{cstr(f)}),[" + ";".join(f"{x}%nat" for x in d) + "])"
                         for i, f, d, _ in rec.draws if f is not None) + "]"
-    ts = "[" + ";\n ".join("[" + ";\n  ".join(ccell(c) for c in t.cells) + "]" for t in tris) + "]"
+    # Metadata that are Python-equal but spelled differently (detail order, 7 vs 7.0) are ONE coordinate for blend; the
+    # model compares coordinates structurally, so every cell is printed with the first spelling seen (triangle 0 first).
+    # That the implementation really treats them as equal is checked by the direct oracle (valid input not refused).
+    rep = {}
+    for t in tris:
+        for c in t.cells:
+            rep.setdefault(meta_key(c.metadata), c.metadata)
+    ts = "[" + ";\n ".join("[" + ";\n  ".join(ccell_m(c, rep[meta_key(c.metadata)]) for c in t.cells) + "]" for t in tris) + "]"
     if res[0] == "ok":
         impl = "(Ok [" + ";\n  ".join(cqcell(c) for c in res[1].cells) + "])"
     else:
@@ -713,11 +799,13 @@ def case_tol(case):
 def case_json(case):
     return {"tris": [tri_to_json(t) for t in case["tris"]], "weights": w_to_json(case["weights"]),
             "method": case["method"], "seed": case["seed"], "tag": case["tag"], "wtag": case.get("wtag"),
-            "info": case.get("info")}
+            "info": case.get("info"), "date_kinds": case.get("date_kinds"), "variant": case.get("variant")}
 
 
 def case_from_json(j):
-    return dict(tris=[tri_from_json(t) for t in j["tris"]], weights=w_from_json(j["weights"]),
+    kinds = j.get("date_kinds") or ["date"] * len(j["tris"])
+    return dict(tris=[tri_from_json(t, k) for t, k in zip(j["tris"], kinds)], weights=w_from_json(j["weights"]),
+                date_kinds=kinds, variant=j.get("variant"),
                 method=j["method"], seed=j["seed"], tag=j.get("tag", "ok"), wtag=j.get("wtag"), info=j.get("info"))
 
 
@@ -767,6 +855,7 @@ def run(ctx):
         ctx.hist(f"method:{case['method'].lower()}")
         ctx.hist(f"weights:{case['wtag']}")
         ctx.hist(f"tag:{case['tag']}")
+        ctx.hist(f"variant:{case.get('variant', 'plain')}")
         ctx.hist(f"n_triangles:{len(case['tris'])}")
         ctx.hist("result:" + ("ok" if res[0] == "ok" else type(res[1]).__name__))
         fails = direct_oracles(case, res, rec, tol if tol else Fraction(0))
